@@ -49,7 +49,8 @@ def targetDir (fs : FS) (base : Path) (imp : Import) : Option Path :=
     (projectRoot fs (base.length + 1) base).map fun root =>
       if fs.dirExists (root ++ ["src"]) then root ++ ["src"] else root
   else
-    some ((List.range imp.parentLevels).foldl (fun d _ => if d = [] then d else d.dropLast) base)
+    -- `super::` / `..` climb one directory per level; climbing above the modelled tree leaves it
+    if imp.parentLevels ≤ base.length then some (base.take (base.length - imp.parentLevels)) else none
 
 def withExt (p : Path) (ext : String) : Path :=
   match p.getLast? with
@@ -115,5 +116,31 @@ def rejectedNames (deps : List ModuleExports) (imp : Import) (items : List Strin
   match deps.find? (fun d => d.key == "_".intercalate modSegs) with
   | some d => names.filter (fun n => !d.publicNames.contains n)
   | none => []
+
+/-! ### What a module exports (`exported_symbols`, src/frontend/module.rs) -/
+
+inductive DKind where
+  | const | model | class_ | enum_ | newtype | trait | function
+  deriving Repr, DecidableEq
+
+structure MDecl where
+  kind : DKind
+  name : String
+  isPub : Bool
+  variants : List String      -- enum variants (empty for every other kind)
+  deriving Repr
+
+/-- Names a declaration contributes to its module's exports. -/
+def declExports (d : MDecl) : List String :=
+  if d.isPub then
+    match d.kind with
+    | .enum_ => d.name :: d.variants
+    | _ => [d.name]
+  else []
+
+def exportedNames (ds : List MDecl) : List String := ds.flatMap declExports
+
+/-- The dependency table the checker consults, built from the module's declarations. -/
+def moduleExports (key : String) (ds : List MDecl) : ModuleExports := ⟨key, exportedNames ds⟩
 
 end Incan.Imports
